@@ -816,6 +816,189 @@ class Planner:
                     self.forms.append((d, rk, mi))
         return self.result()
 
+    # ---------------------------------------------------------------- C27 / C13 pools
+    EXPR_ALGS = [
+        "ufl.algorithms.expand_derivatives",
+        "ufl.algorithms.apply_algebra_lowering.apply_algebra_lowering",
+        "ufl.algorithms.renumbering.renumber_indices",
+        "ufl.algorithms.remove_complex_nodes.remove_complex_nodes",
+        "ufl.algorithms.strip_variables",
+        "ufl.algorithms.estimate_total_polynomial_degree",
+        "ufl.algorithms.extract_coefficients",
+        "ufl.algorithms.extract_arguments",
+        "ufl.algorithms.apply_geometry_lowering.apply_geometry_lowering",
+        "ufl.algorithms.apply_function_pullbacks.apply_function_pullbacks",
+        "ufl.algorithms.tree_format",
+        "ufl.algorithms.remove_component_tensors.remove_component_tensors",
+        "ufl.algorithms.apply_restrictions.apply_default_restrictions",
+        "ufl.algorithms.change_to_reference_grad",
+        "ufl.algorithms.extract_elements",
+        "ufl.algorithms.extract_unique_elements",
+        "ufl.formatting.ufl2unicode.ufl2unicode",
+        "builtins.str",
+        "builtins.repr",
+        "builtins.hash",
+    ]
+
+    def expr_step(self, M, e, kf):
+        """One public algorithm / operator applied to a pool expression."""
+        r = self.rng
+        E = self.ref(e)
+        k = r.randrange(12)
+        if k <= 4:
+            return self.call(r.choice(self.EXPR_ALGS), E, keep_failed=kf, kind="result")
+        if k == 5:
+            a = self.call("ufl.algorithms.apply_algebra_lowering.apply_algebra_lowering", E, keep_failed=kf)
+            if a is None:
+                return None
+            b = self.call("ufl.algorithms.apply_derivatives.apply_derivatives", self.ref(a), keep_failed=kf)
+            if b is None:
+                return a
+            if r.random() < 0.5:
+                return self.call("ufl.algorithms.expand_indices", self.ref(b), keep_failed=kf) or b
+            return b
+        if k == 6 and M["coefs"]:
+            u = r.choice(M["coefs"])
+            w = self.call("ufl.Coefficient", self.ref(self._space_of(u)), kind="coef")
+            if w is None:
+                return None
+            mapping = self.new()
+            if not self.emit(["lit", mapping, ["d", [[self.ref(u), self.ref(w)]]]], kind="mapping"):
+                return None
+            self.dicts.append(mapping)
+            return self.call("ufl.replace", E, self.ref(mapping), keep_failed=kf)
+        if k == 7 and M["coefs"]:
+            u = r.choice(M["coefs"])
+            d = self.call("ufl.derivative", E, self.ref(u), keep_failed=kf)
+            if d is None:
+                return None
+            return self.call("ufl.algorithms.expand_derivatives", self.ref(d), keep_failed=kf) or d
+        if k == 8:
+            others = [x for x in self.exprs if x != e]
+            if others:
+                self.emit(["cmp", None, e, r.choice(others)])
+            self.emit(["cmp", None, e, e])
+            return None
+        if k == 9:
+            members = r.sample(self.exprs, min(len(self.exprs), r.randint(1, 4)))
+            self.emit(["inset", None, e, members])
+            return None
+        if k == 10:
+            out = self.new()
+            if self.emit(["roundtrip", out, e, r.choice(["pickle", "evalrepr"])], keep_failed=kf):
+                return out
+            return None
+        # build a new expression on top (shares the DAG)
+        f = r.choice(["operator.neg", "ufl.algebra.Abs", "ufl.grad", "ufl.transpose", "ufl.variable", "ufl.conj"])
+        return self.call(f, E, keep_failed=False)
+
+    def form_step(self, f, rank, M, kf):
+        r = self.rng
+        k = r.randrange(10)
+        if k <= 5:
+            return self.derive(f, rank, M, keep_failed=kf)
+        if k == 6:
+            self.emit(["obs", None, r.choice(["sig", "hash", "args", "coeffs", "consts", "meta", "repr", "str", "rank"]), f])
+            return None
+        if k == 7:
+            others = [x[0] for x in self.forms if x[0] != f]
+            if others:
+                self.emit(["cmp", None, f, r.choice(others)])
+            return None
+        if k == 8 and r.random() < 0.4:
+            # an ill-posed form (nonlinear in an argument): compute_form_data runs every
+            # lowering pass and raises only in the final arity check
+            v = M["v"]
+            vs = v
+            if self.shape(v):
+                vs = self.call("operator.getitem", self.ref(v), ["t"] + [0] * len(self.shape(v)))
+            if vs is not None:
+                bad = self.call(r.choice(["ufl.sin", "ufl.exp", "ufl.algebra.Abs"]), self.ref(vs))
+                if r.random() < 0.5 and bad is not None:
+                    bad = self.call("operator.mul", self.ref(bad), self.ref(vs))
+                if bad is not None:
+                    kind, m = self.measure(M, kinds=("dx",))
+                    if m is not None:
+                        bf = self.call("operator.mul", self.ref(bad), self.ref(m), kind="form")
+                        if bf is not None:
+                            g = self.call("operator.add", self.ref(f), self.ref(bf), kind="form", keep_failed=True)
+                            if g is not None:
+                                self.call("sim.ops.form_data", self.ref(g), kind="formdata", keep_failed=True, **self.cfd_options())
+            return None
+        if k == 8:
+            fd = self.call("sim.ops.form_data", self.ref(f), kind="formdata", keep_failed=kf, **self.cfd_options())
+            if fd is not None:
+                out = self.new()
+                self.emit(["call", out, "sim.ops.fd_touch", [self.ref(fd)]], keep_failed=kf)
+            return None
+        return self.call(
+            r.choice(
+                [
+                    "ufl.algorithms.estimate_total_polynomial_degree",
+                    "ufl.algorithms.extract_coefficients",
+                    "ufl.algorithms.extract_arguments",
+                    "ufl.algorithms.validate_form",
+                    "ufl.algorithms.compute_form_arities",
+                    "ufl.algorithms.extract_elements",
+                    "ufl.algorithms.tree_format",
+                    "ufl.energy_norm",
+                    "ufl.functional",
+                    "builtins.str",
+                ]
+            ),
+            self.ref(f),
+            keep_failed=kf,
+            kind="result",
+        )
+
+    def pool_program(self):
+        """Environment + forms, then a seeded sequence of public algorithm / operator
+        steps over the pool (results join the pool)."""
+        r = self.rng
+        self.env()
+        for _ in range(self.cfg.get("n_forms") or r.randint(1, 3)):
+            M = r.choice(self.meshes)
+            q = r.random()
+            if q < 0.1:
+                self.shape_derivative_form(M)
+            elif q < 0.2:
+                self.flat_form(M)
+            else:
+                self.form(M, r.choice([0, 1, 1, 2, 2]), self.cfg.get("depth") or r.choice([2, 3, 3]))
+        setup_len = len(self.ops)
+        nsteps = self.cfg.get("n_steps") or r.randint(3, 14)
+        abort_p = self.cfg.get("abort_p", 0.5)
+        marks = []  # op index where each step starts + its input slots
+        for _ in range(nsteps):
+            kf = r.random() < abort_p
+            start = len(self.ops)
+            if self.forms and (r.random() < 0.6 or not self.exprs):
+                f, rank, mi = r.choice(self.forms)
+                out = self.form_step(f, rank, self.meshes[mi], kf)
+                inputs = [f]
+                if out is not None and out in self.node.slots and isinstance(self.obj(out), Form):
+                    try:
+                        rk = len(self.obj(out).arguments())
+                        self.forms.append((out, rk, mi))
+                    except BaseException:  # noqa: B036
+                        pass
+            elif self.exprs:
+                e = r.choice(self.exprs)
+                M = r.choice(self.meshes)
+                out = self.expr_step(M, e, kf)
+                inputs = [e]
+                if out is not None and out in self.node.slots and isinstance(self.obj(out), Expr):
+                    self.exprs.append(out)
+            else:
+                continue
+            if len(self.ops) > start:
+                marks.append([start, len(self.ops), inputs])
+        res = self.result()
+        res["setup_len"] = setup_len
+        res["steps"] = marks
+        res["dicts"] = self.dicts
+        return res
+
     def flat_form(self, M):
         """A form whose integrand is (mostly) a flat commutative expression."""
         r = self.rng
@@ -869,4 +1052,6 @@ def xop_plan(node, op):
     kind = spec.get("kind", "program")
     if kind == "program":
         return p.program()
+    if kind == "pool":
+        return p.pool_program()
     raise simops.Skip("plan-kind")
